@@ -278,6 +278,9 @@ func GenProgram(r *core.Rand, o SemOpts) *Program {
 	if o.Constants && !o.off("twin-structs") {
 		g.twins() // after defaults: only structs without defaults get a twin
 	}
+	if o.Constants && o.ForGen && !o.off("const-refs") {
+		g.constRefs()
+	}
 	for _, di := range g.all {
 		if s, ok := di.def.(*Service); ok {
 			g.fillService(di, s)
@@ -672,6 +675,38 @@ func (g *semGen) literalOK(t *TypeRef, seen map[*Struct]bool) bool {
 	return false
 }
 
+// literalUnder: a literal of type t exists that mentions only structs ranked
+// below limit (required fields and union members included, transitively).
+func (g *semGen) literalUnder(t *TypeRef, limit int, seen map[*Struct]bool) bool {
+	rt := t.Root()
+	if rt.Kind != TNamed {
+		return g.literalOK(t, map[*Struct]bool{})
+	}
+	d, ok := rt.Target.(*Struct)
+	if !ok {
+		return g.literalOK(t, map[*Struct]bool{})
+	}
+	if g.rank[d] >= limit || seen[d] {
+		return false
+	}
+	seen[d] = true
+	defer delete(seen, d)
+	if d.Kind == KUnion {
+		for _, f := range d.Fields {
+			if g.literalUnder(f.Type, limit, seen) {
+				return true
+			}
+		}
+		return false
+	}
+	for _, f := range d.Fields {
+		if f.Req == ReqRequired && f.Default == nil && !g.literalUnder(f.Type, limit, seen) {
+			return false
+		}
+	}
+	return true
+}
+
 // defaultOK rejects defaults that would make a struct's default value contain
 // the struct itself (default cycles), and feature classes switched off.
 func (g *semGen) defaultOK(di *defInfo, f *Field) bool {
@@ -682,6 +717,10 @@ func (g *semGen) defaultOK(di *defInfo, f *Field) bool {
 	}
 	// defaults whose value would embed a higher-ranked struct through a container
 	if g.mentionsStructAtOrAbove(f.Type, di.rank, 0) {
+		return false
+	}
+	// ... or through required fields / union members of the literal's struct
+	if !g.literalUnder(f.Type, di.rank, map[*Struct]bool{}) {
 		return false
 	}
 	if g.o.off("struct-literal-in-default-on-type-cycle") {
@@ -968,7 +1007,7 @@ func (g *semGen) constFor(f *File, t *TypeRef, maxConstRank int, depth int) *Con
 			if d.Kind == KUnion {
 				var ok []*Field
 				for _, fl := range d.Fields {
-					if g.canHaveLiteral(fl.Type) {
+					if g.canHaveLiteral(fl.Type) && (g.structLimit == math.MaxInt32 || g.literalUnder(fl.Type, g.structLimit, map[*Struct]bool{})) {
 						ok = append(ok, fl)
 					}
 				}
@@ -991,7 +1030,7 @@ func (g *semGen) constFor(f *File, t *TypeRef, maxConstRank int, depth int) *Con
 				if !g.canHaveLiteral(fl.Type) {
 					continue
 				}
-				if !need && g.mentionsStructAtOrAbove(fl.Type, g.structLimit, 0) {
+				if !need && (g.mentionsStructAtOrAbove(fl.Type, g.structLimit, 0) || (g.structLimit != math.MaxInt32 && !g.literalUnder(fl.Type, g.structLimit, map[*Struct]bool{}))) {
 					continue
 				}
 				if need || (depth > 0 && r.Chance(1, 2)) {
@@ -1206,6 +1245,42 @@ func (g *semGen) twins() {
 	}
 }
 
+// constRefs adds constants defined as a plain reference to another constant
+// of the same type, local or included.
+func (g *semGen) constRefs() {
+	r := g.r
+	for _, y := range g.p.Files {
+		if !r.Chance(1, 2) {
+			continue
+		}
+		vis := g.visible(y)
+		for _, v := range vis {
+			c, ok := v.di.def.(*Constant)
+			if !ok || c.Value == nil || c.Type == nil {
+				continue
+			}
+			// references to constants of primitive types are emitted as Go
+			// identifiers (the rest is inlined): prefer them
+			if c.Type.Root().Kind == TBase {
+				if !r.Chance(2, 3) {
+					continue
+				}
+			} else if !r.Chance(1, 5) {
+				continue
+			}
+			t := c.Type
+			if v.qual != "" {
+				var ok bool
+				if t, ok = requalify(c.Type, v.di.file, v.qual); !ok {
+					continue
+				}
+			}
+			g.declare(y, &Constant{Name: g.name("kr"), Type: t, Value: &Const{Kind: CRef, Ref: v.qual + c.Name, RefConst: c}})
+			break
+		}
+	}
+}
+
 // FixNames rewrites every reference (type names, constant references, enum
 // item references, service parents) from the definitions they are bound to,
 // after definitions, fields or files have been renamed.
@@ -1359,10 +1434,21 @@ var HostileNames = []string{"type", "func", "range", "select", "chan", "go", "de
 func MakeHostile(p *Program, r *core.Rand) []string {
 	var log []string
 	pick := func() string { return HostileNames[r.Intn(len(HostileNames))] }
+	sameNamed(p, r, &log)
+	twinned := map[string]int{}
+	for _, f := range p.Files {
+		for _, d := range f.Defs {
+			if _, ok := d.(*Struct); ok {
+				twinned[d.DefName()]++
+			}
+		}
+	}
 	for _, f := range p.Files {
 		used := map[string]bool{}
+		usedNorm := map[string]bool{}
 		for _, d := range f.Defs {
 			used[d.DefName()] = true
+			usedNorm[normKey(d.DefName())] = true
 		}
 		for _, h := range f.Headers {
 			if h.Target != nil {
@@ -1370,14 +1456,24 @@ func MakeHostile(p *Program, r *core.Rand) []string {
 			}
 		}
 		for _, d := range f.Defs {
-			if !r.Chance(1, 3) {
+			_, isConst := d.(*Constant)
+			if !r.Chance(1, 3) && !(isConst && r.Chance(1, 3)) {
 				continue
 			}
 			n := pick()
-			if IsReserved(n) || used[n] {
+			if isConst && r.Chance(2, 3) {
+				n = capsWords[r.Intn(len(capsWords))]
+			} else if r.Chance(1, 4) {
+				n = relativeDefName(f, r)
+			}
+			if d.DefName() == sameName || n == "" || IsReserved(n) || used[n] {
 				continue
 			}
+			if usedNorm[normKey(n)] && !r.Chance(1, 8) {
+				continue // same Go name as a sibling: (rightly) refused, keep rare
+			}
 			used[n] = true
+			usedNorm[normKey(n)] = true
 			log = append(log, fmt.Sprintf("%s: %s -> %s", f.Path, d.DefName(), n))
 			switch d := d.(type) {
 			case *Typedef:
@@ -1396,12 +1492,26 @@ func MakeHostile(p *Program, r *core.Rand) []string {
 			switch d := d.(type) {
 			case *Struct:
 				fu := map[string]bool{}
+				fn := map[string]bool{}
 				for _, fl := range d.Fields {
 					fu[fl.Name] = true
+					fn[normKey(fl.Name)] = true
+				}
+				if twinned[d.Name] > 1 && !r.Chance(1, 8) {
+					continue // renaming fields of one of two same-named structs breaks the cast between them
 				}
 				for _, fl := range d.Fields {
-					if n := pick(); r.Chance(1, 3) && !IsReserved(n) && !fu[n] {
+					n := pick()
+					for k := 0; k < 3 && methodNames[n] && !r.Chance(1, 12); k++ {
+						// names of generated methods are (rightly) refused as field names: keep them rare
+						n = pick()
+					}
+					if r.Chance(1, 6) {
+						n = relativeFieldName(d, fl, r)
+					}
+					if r.Chance(1, 3) && n != "" && !IsReserved(n) && !fu[n] && (!fn[normKey(n)] || r.Chance(1, 8)) {
 						fu[n] = true
+						fn[normKey(n)] = true
 						log = append(log, fmt.Sprintf("%s: %s.%s -> %s", f.Path, d.Name, fl.Name, n))
 						p.renameFieldKeys(d, fl.Name, n)
 						fl.Name = n
@@ -1444,4 +1554,158 @@ func MakeHostile(p *Program, r *core.Rand) []string {
 	}
 	p.FixNames()
 	return log
+}
+
+var methodNames = map[string]bool{"ToWire": true, "FromWire": true, "String": true, "Equals": true, "Encode": true, "Decode": true, "Error": true, "ErrorName": true, "Ptr": true,
+	"MarshalLogObject": true, "MarshalText": true, "UnmarshalText": true, "MarshalJSON": true, "UnmarshalJSON": true}
+
+func normKey(n string) string { return strings.ToLower(strings.ReplaceAll(n, "_", "")) }
+
+// capsWords: constant names as most IDLs write them.
+var capsWords = []string{"LIMIT", "MAX", "MIN", "VERSION", "DEFAULTS", "FOO", "AB", "TIMEOUT", "E", "PI"}
+
+const sameName = "Same"
+
+func capFirst(s string) string {
+	if s == "" {
+		return s
+	}
+	return strings.ToUpper(s[:1]) + s[1:]
+}
+
+// relativeFieldName derives a name from a sibling field: the names of the
+// accessors generated for that sibling, and near-misses of its Go name.
+func relativeFieldName(d *Struct, self *Field, r *core.Rand) string {
+	if len(d.Fields) < 2 {
+		return ""
+	}
+	sib := d.Fields[r.Intn(len(d.Fields))]
+	if sib == self {
+		return ""
+	}
+	s := sib.Name
+	switch r.Intn(16) % 10 {
+	case 0:
+		return "get_" + s
+	case 1:
+		return "Get" + capFirst(s)
+	case 2:
+		return "is_set_" + s
+	case 3:
+		return "IsSet" + capFirst(s)
+	case 4:
+		return s + "_"
+	case 5:
+		return "_" + s
+	case 6:
+		return strings.ToUpper(s)
+	}
+	return capFirst(s)
+}
+
+// relativeDefName derives a definition name from a sibling definition: the
+// names of the helpers, item constants and argument structs generated for it.
+func relativeDefName(f *File, r *core.Rand) string {
+	if len(f.Defs) < 2 {
+		return ""
+	}
+	switch d := f.Defs[r.Intn(len(f.Defs))].(type) {
+	case *Enum:
+		if len(d.Items) > 0 && r.Chance(1, 2) {
+			it := d.Items[r.Intn(len(d.Items))]
+			return d.Name + capFirst(it.Name)
+		}
+		return d.Name + "_Values"
+	case *Struct:
+		return []string{"Default_" + d.Name, d.Name + "_", "_" + d.Name, capFirst(d.Name)}[r.Intn(4)]
+	case *Service:
+		if len(d.Funcs) > 0 {
+			fn := d.Funcs[r.Intn(len(d.Funcs))]
+			return d.Name + "_" + fn.Name + []string{"_Args", "_Result", "_Helper"}[r.Intn(3)]
+		}
+		return d.Name + "Client"
+	case *Typedef:
+		return d.Name + "_"
+	case *Constant:
+		return strings.ToUpper(d.Name)
+	}
+	return ""
+}
+
+// sameNamed gives types of several files one name and uses them all as
+// container elements in one file, so that the names derived for container
+// helpers collide repeatedly.
+func sameNamed(p *Program, r *core.Rand, log *[]string) {
+	for _, z := range p.Files {
+		if !r.Chance(1, 3) {
+			continue
+		}
+		files := []*File{z}
+		seen := map[*File]bool{z: true}
+		for _, h := range z.Headers {
+			if h.Target != nil && !seen[h.Target] {
+				seen[h.Target] = true
+				files = append(files, h.Target)
+			}
+		}
+		if len(files) < 3 {
+			continue
+		}
+		var elems []*TypeRef
+		for _, x := range files {
+			var cand Def
+			taken := false
+			for _, d := range x.Defs {
+				if d.DefName() == sameName {
+					taken = true
+					switch d.(type) {
+					case *Struct, *Enum:
+						cand = d
+					}
+				}
+			}
+			if !taken {
+				for _, d := range x.Defs {
+					switch dd := d.(type) {
+					case *Struct:
+						if dd.Kind == KStruct && !strings.Contains(dd.Name, ".") {
+							cand = d
+						}
+					case *Enum:
+						if !strings.Contains(dd.Name, ".") {
+							cand = d
+						}
+					}
+				}
+				switch dd := cand.(type) {
+				case *Struct:
+					dd.Name = sameName
+				case *Enum:
+					dd.Name = sameName
+				}
+			}
+			if cand != nil {
+				elems = append(elems, &TypeRef{Kind: TNamed, Name: sameName, Target: cand, TFile: x})
+			}
+		}
+		if len(elems) < 3 {
+			continue
+		}
+		taken := false
+		for _, d := range z.Defs {
+			if d.DefName() == "SameHolder" {
+				taken = true
+			}
+		}
+		if taken {
+			continue
+		}
+		h := &Struct{Kind: KStruct, Name: "SameHolder"}
+		for i, e := range elems {
+			id := int64(i + 1)
+			h.Fields = append(h.Fields, &Field{ID: id, IDLit: strconv.FormatInt(id, 10), Req: ReqOptional, Name: fmt.Sprintf("same%d", i), Type: &TypeRef{Kind: TList, Elem: e}})
+		}
+		z.Defs = append(z.Defs, h)
+		*log = append(*log, fmt.Sprintf("%s: %d types named %s used as list elements", z.Path, len(elems), sameName))
+	}
 }
